@@ -27,6 +27,10 @@ package main
 //   Result: <answers> ; dials=<n> oad=<per carrier handed out by dialContext: the number of earlier
 //           carriers whose Close() had not returned at that moment> open=<open carriers>
 //           max=<max simultaneously open> closes=<completed Close() calls per carrier> dialing=<a dialContext call is pending> left=<adapter goroutines still alive>
+//           pend=<open carriers on which the adapter has called Close() and the call is waiting for the script (redials)>
+//   "closes every carrier it obtained": when the adapter has ended (Close, or a failed dial) and no dial is pending,
+//   every carrier it was handed is closed or has its Close() call pending -- in particular a carrier handed over by a
+//   dial that was in progress when Close() was called (lib/checks/c17.py, key redial-carrier-left-open).
 
 import (
 	"context"
@@ -508,7 +512,7 @@ func runRedialQ(tokens []string, slow bool, qcap int) string {
 		return "!unsettled"
 	}
 	sc.mu.Lock()
-	var open, closes, oad []string
+	var open, closes, oad, pend []string
 	for _, n := range sc.oad {
 		oad = append(oad, strconv.Itoa(n))
 	}
@@ -517,6 +521,9 @@ func runRedialQ(tokens []string, slow bool, qcap int) string {
 			open = append(open, strconv.Itoa(f.id))
 		}
 		closes = append(closes, strconv.Itoa(f.nclose))
+		if f.nclose == 0 && f.closePending > 0 {
+			pend = append(pend, strconv.Itoa(f.id)) // Close() was called on it and is waiting for the script
+		}
 	}
 	// payloads that reached a carrier must be what the user passed, not the scribbled buffer
 	for _, w := range sc.written {
@@ -526,7 +533,7 @@ func runRedialQ(tokens []string, slow bool, qcap int) string {
 		}
 	}
 	res := wirePrint(out) + ";dials=" + strconv.Itoa(sc.dials) + " oad=" + wirePrintSemi(oad) + " open=" + wirePrintSemi(open) + " max=" + strconv.Itoa(sc.maxOpen) +
-		" closes=" + wirePrintSemi(closes) + " dialing=" + b01(sc.dialPending) + " left=" + strconv.Itoa(n-base)
+		" closes=" + wirePrintSemi(closes) + " dialing=" + b01(sc.dialPending) + " left=" + strconv.Itoa(n-base) + " pend=" + wirePrintSemi(pend)
 	if qcap > 0 {
 		res += " off=" + ranges(sc.offered) + " got=" + ranges(got)
 	}
